@@ -207,6 +207,18 @@ func drawValidFile(d gen.D, corpus []gen.CorpusFile) []byte {
 		return buf.Bytes()
 	case k < 4 && len(corpus) > 0:
 		return corpus[d.Int(0, len(corpus)-1, "cf")].Data
+	case k == 5:
+		// a data area of exactly a multiple of the 4096-byte read buffer,
+		// or a byte or two around one
+		o := gen.DefaultStreamOpts()
+		o.ExtraFileIds = false
+		o.MaxRecs = 8
+		s, _ := gen.GenStream(d, o)
+		size := 4096*d.Int(1, 3, "blocks") + []int{0, 0, 0, -1, 1, -2, 2}[d.Int(0, 6, "delta")]
+		if s2, ok := gen.SlideTo(s, size-gen.TailLen(s)); ok {
+			s = s2
+		}
+		return s.Bytes()
 	case k < 5:
 		// a file whose data area exceeds the 4096 byte read buffer
 		o := gen.DefaultStreamOpts()
@@ -264,6 +276,46 @@ func TestC10(t *testing.T) {
 			rec.Eval("corpus", n)
 			rec.NonTrivialEnum(n)
 			rec.Class("corpus-files-usable", int64(len(corpus)))
+
+			// deterministic: data sizes at and around multiples of the
+			// decoder's 4096-byte buffer and of the 32 KiB copy buffer
+			base := &fitmodel.Stream{HeaderSize: 14, Proto: 0x20, Recs: []fitmodel.Rec{
+				{IsDef: true, Global: 0, Fields: []fitmodel.FieldDef{{Num: 0, Size: 1, Base: 0}}}, {Raw: []byte{4}},
+				{IsDef: true, Local: 1, Global: 20, Fields: []fitmodel.FieldDef{{Num: 253, Size: 4, Base: 0x86}, {Num: 3, Size: 1, Base: 2}}},
+				{Local: 1, Raw: []byte{1, 2, 3, 4, 90}}, {Local: 1, Raw: []byte{2, 2, 3, 4, 91}},
+			}}
+			na, nafail := int64(0), 0
+			for _, blk := range []int{4096, 8192, 12288, 32768, 65536} {
+				for delta := -3; delta <= 3; delta++ {
+					s, ok := gen.SlideTo(base, blk+delta-gen.TailLen(base))
+					if !ok {
+						continue
+					}
+					img := s.Bytes()
+					if frameLen(img)-int(img[0])-2 != blk+delta {
+						rec.Fail("aligned", "", "HARNESS: SlideTo did not produce the requested data size", nil)
+						continue
+					}
+					for _, ch := range gen.StandardChunkings() {
+						for _, k := range []int{1, 2} {
+							c := chainCase{Chunk: ch, Sentinel: 5000, Corrupt: -1}
+							for i := 0; i < k; i++ {
+								c.Files = append(c.Files, hex.EncodeToString(img))
+							}
+							na++
+							if nafail >= 3 {
+								continue
+							}
+							if msg, ok := check(rec, c); !ok {
+								nafail++
+								rec.Fail("aligned", "", fmt.Sprintf("data size %d: %s", blk+delta, msg), c)
+							}
+						}
+					}
+				}
+			}
+			rec.Eval("aligned", na)
+			rec.NonTrivialEnum(na)
 
 		}
 
